@@ -25,7 +25,7 @@
   compares with the real sarpy segments.
 
   Extension (SEG2): raw-basis subsets over a parent with the identity format function (`subsetR`), block definitions
-  with step -1 (`Blks.rcons`; the code refuses every subscript that reaches such a block, see `Seg.accepts`),
+  with step -1 (`Blks.rcons`, served through `flipSlice` since the repair F1 of `_find_slice_overlap`),
   ComplexFormatFunction with the band dimension kept (`cplxK`; refuses a band step other than +1 and a reversed band
   axis), the orders MP / PM (`COrd`, the pixel value is the *named* function `Pairing.polar` of the two stored samples),
   SingleLUTFormatFunction with a 1-d (`lut1`) or 2-d (`lut2`) table (`Pairing.lut`), and writes through the complex
@@ -38,7 +38,7 @@
   below an `orient`).
 
   Line numbers refer to sarpy/io/general/data_segment.py (ds) and format_function.py (ff) at /repo commit a516c01;
-  those of the SEG2 extension (fmtSub, rawSubK, dblSlice, hitsR, pairKept, lutMap / lutCols, unpair / unpairK, the new
+  those of the SEG2 extension (fmtSub, rawSubK, dblSlice, flipSlice, pairKept, lutMap / lutCols, unpair / unpairK, the new
   constructors) at /repo commit dcdd97a.
   Import-free apart from the slice kernels.
 -/
@@ -207,17 +207,27 @@ def boxLoR (box : List (Int × Int)) (rv : List Bool) (idx : Idx) : Idx :=
 def Arr.pasteR {α : Type} (out : Arr α) (box : List (Int × Int)) (rv : List Bool) (d : Arr α) : Arr α :=
   ⟨out.shape, fun idx => if inBox box idx then d.get (boxLoR box rv idx) else out.get idx⟩
 
-/-- the per-axis loop of `BlockAggregateSegment.read_raw` / `write_raw` for a block definition with reversed axes
-    (ds:1876-1890, 1948-1971): `_find_slice_overlap` computes the overlap with the interval the entry covers and
-    then calls `_reverse_slice` on a slice of step +1, which raises ValueError (ds:54-55, 140-143).  So the read is
-    refused as soon as the loop reaches a reversed axis on which there is an overlap; an earlier axis without
-    overlap ends the loop first. -/
-def hitsR : List NSlice → List (Int × Int) → List Bool → Bool
+/-- `_find_slice_overlap(slice_in, ref_slice)` with `ref_slice.step < 0` (ds:140-153, as repaired by
+    F1_block_reversed_definition): `c` is the overlap relative to the interval the definition covers (length `len`) and
+    `p` the positions in the output, both as for a forward definition; the child is addressed backwards: position `r` of
+    the interval is child index `len - 1 - r`, visited in the same order, so the step changes sign -/
+def flipSlice (len : Int) (c p : NSlice) : NSlice :=
+  let st := len - 1 - c.start
+  let stp := -c.step
+  let e := st + (p.stop.getD 0 - p.start) * stp
+  ⟨st, (if stp > 0 then some (min e len) else if e < 0 then none else some e), stp⟩
+
+/-- the per-axis loop of `BlockAggregateSegment.read_raw` (ds:1876-1890) for a block definition that runs backwards on the
+    axes flagged in `rv` -/
+def overlapsR : List NSlice → List (Int × Int) → List Bool → Option (List NSlice × List NSlice)
   | t :: ts, b :: bs, r :: rs =>
     match overlap t b.1 b.2 with
-    | none => false
-    | some _ => r || hitsR ts bs rs
-  | _, _, _ => false
+    | none => none
+    | some (c, p) =>
+      match overlapsR ts bs rs with
+      | none => none
+      | some (cs, ps) => some ((if r then flipSlice (b.2 - b.1) c p else c) :: cs, p :: ps)
+  | _, _, _ => some ([], [])
 
 /-! ### complex samples -/
 
@@ -340,7 +350,8 @@ inductive Segs where
 inductive Blks where
   | nil
   | cons (arr : List (Int × Int)) (c : Seg) (rest : Blks)
-  /-- a block whose definition has step -1 on the axes flagged in `rv`: entry `slice(b1-1, b0-1, -1)` for the box `[b0, b1)` -/
+  /-- a block whose definition has step -1 on the axes flagged in `rv`: entry `slice(b1-1, b0-1, -1)` for the box `[b0, b1)`
+      (served since the repair F1_block_reversed_definition; before it every subscript reaching such a block was refused) -/
   | rcons (arr : List (Int × Int)) (rv : List Bool) (c : Seg) (rest : Blks)
 end
 
@@ -466,9 +477,10 @@ def Blks.readOnto : Blks → List NSlice → Arr α → Arr α
     match overlaps ts arr with
     | none => r.readOnto ts out
     | some (csub, psub) => r.readOnto ts (out.paste (sliceBox psub) (c.read csub))
-  -- a reversed block contributes nothing when the loop ends at an axis without overlap; otherwise the read is
-  -- refused (`hitsR`, `Blks.acceptsOnto`) and no value is returned
-  | .rcons _ _ _ r, ts, out => r.readOnto ts out
+  | .rcons arr rv c r, ts, out =>
+    match overlapsR ts arr rv with
+    | none => r.readOnto ts out
+    | some (csub, psub) => r.readOnto ts (out.paste (sliceBox psub) (c.read csub))
 end
 
 end Sem
@@ -513,7 +525,10 @@ def Blks.acceptsOnto : Blks → List NSlice → Bool
     (match overlaps ts arr with
      | none => true
      | some (csub, _) => c.accepts csub) && r.acceptsOnto ts
-  | .rcons arr rv _ r, ts => !(hitsR ts arr rv) && r.acceptsOnto ts
+  | .rcons arr rv c r, ts =>
+    (match overlapsR ts arr rv with
+     | none => true
+     | some (csub, _) => c.accepts csub) && r.acceptsOnto ts
 end
 
 
@@ -554,6 +569,20 @@ def overlapsW : List Nat → List NSlice → List (Int × Int) → Option (List 
         | none => none
         | some (cs, ds) => some (c :: cs, dsl :: ds)
   | _, _, _ => some ([], [])
+
+/-- the same for a block definition that runs backwards on the axes flagged in `rv` -/
+def overlapsWR : List Nat → List NSlice → List (Int × Int) → List Bool → Option (List NSlice × List NSlice)
+  | lim :: lims, t :: ts, b :: bs, r :: rs =>
+    match overlap t b.1 b.2 with
+    | none => none
+    | some (c, p) =>
+      match overlap ⟨0, some lim, 1⟩ p.start (p.stop.getD 0) with
+      | none => none
+      | some (_, dsl) =>
+        match overlapsWR lims ts bs rs with
+        | none => none
+        | some (cs, ds) => some ((if r then flipSlice (b.2 - b.1) c p else c) :: cs, dsl :: ds)
+  | _, _, _, _ => some ([], [])
 
 section Write
 variable {α : Type} [Parts α]
@@ -606,8 +635,10 @@ def Blks.writeOnto : Blks → List Nat → List NSlice → Arr α → List (Nat 
     (match overlapsW lims ts arr with
      | none => []
      | some (csub, dsub) => c.write csub (d.select dsub)) ++ r.writeOnto lims ts d
-  -- reversed block definition: nothing is stored in it (either no overlap, or ValueError: `Blks.acceptsOnto`)
-  | .rcons _ _ _ r, lims, ts, d => r.writeOnto lims ts d
+  | .rcons arr rv c r, lims, ts, d =>
+    (match overlapsWR lims ts arr rv with
+     | none => []
+     | some (csub, dsub) => c.write csub (d.select dsub)) ++ r.writeOnto lims ts d
 end
 
 end Write
@@ -672,8 +703,8 @@ def Blks.allDisjointFrom : Blks → List (Int × Int) → Bool
   | .rcons arr _ _ r, a => boxesDisjoint a arr && r.allDisjointFrom a
 
 mutual
-/-- the tree can be written regularly: no read-only (file-read) storage, no format function without inverse, no
-    reversed block definition, and every block aggregate is a tiling with holes, i.e. its blocks are pairwise disjoint -/
+/-- the tree can be written regularly: no read-only (file-read) storage, no format function without inverse,
+    and every block aggregate is a tiling with holes, i.e. its blocks are pairwise disjoint -/
 def Seg.writable : Seg → Bool
   | .leaf _ _ => true
   | .fleaf _ _ => false
@@ -692,7 +723,7 @@ def Segs.writable : Segs → Bool
 def Blks.writable : Blks → Bool
   | .nil => true
   | .cons arr c r => c.writable && r.allDisjointFrom arr && r.writable
-  | .rcons _ _ _ _ => false
+  | .rcons arr _ c r => c.writable && r.allDisjointFrom arr && r.writable
 end
 
 mutual
@@ -715,11 +746,11 @@ def Segs.tiled : Segs → Bool
 def Blks.tiled : Blks → Bool
   | .nil => true
   | .cons arr c r => c.tiled && r.allDisjointFrom arr && r.tiled
-  | .rcons _ _ _ _ => false
+  | .rcons arr _ c r => c.tiled && r.allDisjointFrom arr && r.tiled
 end
 
 mutual
-/-- no node of the tree ever refuses a normalised subscript: no kept-band complex format, no reversed block definition -/
+/-- no node of the tree ever refuses a normalised subscript: no kept-band complex format -/
 def Seg.total : Seg → Bool
   | .leaf _ _ => true
   | .fleaf _ _ => true
@@ -738,7 +769,7 @@ def Segs.total : Segs → Bool
 def Blks.total : Blks → Bool
   | .nil => true
   | .cons _ c r => c.total && r.total
-  | .rcons _ _ _ _ => false
+  | .rcons _ _ c r => c.total && r.total
 end
 
 /-- `ts` is a normalised subscript for `shape`: one normal slice per axis -/
